@@ -22,7 +22,7 @@ CHUNK = 64
 SHRINK_LISTS = ("ops",)
 PROBES = {"C14": ["second-solve", "solve-at-stale-clock", "solve-after-jump", "solve-after-syscall", "ltv", "lti",
                   "ns=1", "batch>1", "T=1", "u:none", "u:zeros", "u:random", "u:prev", "u:prev-shifted-in-place", "x_init:non-contiguous", "x_init:expanded", "x_init:zero", "x_init:view-of-previous-plan", "solve:no_grad", "solve:split-backward-forward", "u:random-far", "two-lqr-share-system",
-                  "mpc-linear", "mpc-nonlinear", "nls-time-dependent", "mpc-nonmonotone", "unstable-A", "cond>1e4", "system:deepcopied"]}
+                  "mpc-linear", "mpc-nonlinear", "nls-time-dependent", "mpc-nonmonotone", "unstable-A", "cond>1e4", "system:deepcopied", "dt!=1", "p=0"]}
 import os
 TS = float(os.environ.get("PPSIM_TOLSCALE", "1"))
 TOL_FEAS = 1e-11 * TS       # relative
@@ -43,7 +43,8 @@ def generate(seed, tier, prop="C14"):
     cfg = {"kind": kind, "ns": ns, "nc": nc, "T": T, "B": B, "N": T + r.choice([0, 0, 1, 3]),
            "rho": r.choice([0.5, 0.9, 1.0, 1.3]), "logcond": r.choice([0, 1, 2, 4, 6]), "c1": r.random() < 0.7,
            "Qtv": r.random() < 0.5, "two": r.random() < 0.25, "h": r.choice([0.2, 0.2, 1.0, 2.5]),
-           "a": r.choice([0.0, 0.0, 0.5, 0.9]), "deepcopy_sys": r.random() < 0.2}
+           "a": r.choice([0.0, 0.0, 0.5, 0.9]), "deepcopy_sys": r.random() < 0.2,
+           "dt": r.choice([1, 1, 0.05, 2]) if kind == "LTI" else 1, "pzero": r.random() < 0.12}
     ro = rng.stream(seed, "ops")
     ops = []
     n = ro.randint(1, 8 if tier == "thorough" else 6)
@@ -78,7 +79,7 @@ def simplify(plan):
     c = plan["config"]
     cands = []
     for k, v in (("B", 1), ("T", 2), ("T", 1), ("ns", 1), ("ns", 2), ("nc", 1), ("logcond", 0), ("rho", 0.5),
-                 ("c1", False), ("Qtv", False), ("two", False), ("a", 0.0), ("h", 0.2)):
+                 ("c1", False), ("Qtv", False), ("two", False), ("a", 0.0), ("h", 0.2), ("dt", 1), ("pzero", False), ("deepcopy_sys", False)):
         if c.get(k) != v and not (k in ("T",) and c["kind"] == "LTV" and v > c["N"]):
             cc = dict(c, **{k: v})
             if k == "T":
@@ -174,11 +175,11 @@ def execute(plan, prop, out, tr):
         if c["Qtv"]:
             Q = torch.stack([torch.stack([_spd(s, "Q%d_%d_%d" % (j, b, t), nsc, c["logcond"], dt) for t in range(T)])
                              for b in range(B)])
-            p = rng.randn(s, ("p", j), (B, T, nsc), dt)
+            p = rng.randn(s, ("p", j), (B, T, nsc), dt) * (0.0 if c.get("pzero") else 1.0)
             lq = pp.module.LQR(sysm, Q, p, T); Qh, ph = Q, p
         else:
             Q1 = torch.stack([_spd(s, "Q%d_%d" % (j, b), nsc, c["logcond"], dt) for b in range(B)])
-            p1 = rng.randn(s, ("p", j), (B, nsc), dt)
+            p1 = rng.randn(s, ("p", j), (B, nsc), dt) * (0.0 if c.get("pzero") else 1.0)
             lq = pp.module.LQR(sysm, Q1, p1, T); Qh, ph = Q1, p1
             Q, p = Q1.unsqueeze(1).expand(B, T, nsc, nsc), p1.unsqueeze(1).expand(B, T, nsc)
         lqrs.append(lq); costs.append((Q.clone(), p.clone()))
@@ -198,6 +199,11 @@ def execute(plan, prop, out, tr):
         return As, Bs, cs
 
     clock = 0
+    dtv = c.get("dt", 1)        # the sampling interval argument: for a time-invariant system it must not change anything
+    if dtv != 1:
+        out.probe("dt!=1")
+    if c.get("pzero"):
+        out.probe("p=0")
     prev_u = {}
     prev_obj = {}
     kept = []               # (x, u) tensors returned earlier, with pristine copies: they are the caller's now
@@ -280,19 +286,19 @@ def execute(plan, prop, out, tr):
                     handed_costs.append((mpc_Q, mpc_p, costs[0][0], costs[0][1]))
                     mpc = pp.module.MPC(sysm, mpc_Q, mpc_p, T,
                                         stepper=pp.utils.ReduceToBason(steps=6, patience=2, decreasing=1e-4))
-                x, u, cost = mpc(1, x0, u_init=u0)
+                x, u, cost = mpc(dtv, x0, u_init=u0)
             elif how == "no_grad":
                 with torch.no_grad():
-                    x, u, cost = lqrs[j](x0, u_traj=u0)
+                    x, u, cost = lqrs[j](x0, dtv, u_traj=u0)
                 out.probe("solve:no_grad")
             elif how == "split":
                 # the two public halves called by hand, the roll-out from another initial state than the backward pass
                 xb0 = rng.randn(s, ("xsplit", i), (B, ns), dt)
-                K_, k_ = lqrs[j].lqr_backward(xb0, 1, u0)
+                K_, k_ = lqrs[j].lqr_backward(xb0, dtv, u0)
                 x, u, cost = lqrs[j].lqr_forward(x0, K_, k_)
                 out.probe("solve:split-backward-forward")
             else:
-                x, u, cost = lqrs[j](x0, u_traj=u0)
+                x, u, cost = lqrs[j](x0, dtv, u_traj=u0)
         except Exception as e:
             raise Violation("C14.raises", "%s raised %s: %s" % (ctx, type(e).__name__, str(e)[:300]), i,
                             "raises:%s:ns%s:B%s:T%s" % (kind, "=1" if ns == 1 else ">1", "=1" if B == 1 else ">1",
